@@ -12,6 +12,7 @@ import (
 	"fmt"
 	"os"
 	"syscall"
+	"time"
 
 	"github.com/zmap/zcrypto/x509"
 	"github.com/zmap/zlint/v3"
@@ -36,6 +37,13 @@ func main() {
 	mark := flag.Bool("mark", false, "write BEGIN/END markers to fd 2 around the lint phase")
 	reps := flag.Int("reps", 1, "lint every object this many times (digest of the last run is printed; differing runs are reported)")
 	flag.Parse()
+	// Parsing is not linting: Go's time.Parse maps a numeric zone offset onto the
+	// process's local zone when it matches one (so "…-0500" parsed under
+	// TZ=America/New_York yields a *Local* time whose AddDate crosses DST), i.e. the
+	// environment reaches the *parser's* output. The parse phase therefore runs with a
+	// neutral local zone; the real one (from TZ) is back in force for the lint phase.
+	realLocal := time.Local
+	time.Local = time.UTC
 	f, err := os.Open(*bundle)
 	if err != nil {
 		fmt.Fprintln(os.Stderr, err)
@@ -73,6 +81,7 @@ func main() {
 		items = append(items, p)
 	}
 	f.Close()
+	time.Local = realLocal
 	out := make([]string, len(items))
 	unstable := make([]bool, len(items))
 	if *mark {
